@@ -124,3 +124,28 @@ func engDec(a []string) string {
 	}
 	return "bad-op"
 }
+
+// engine "reg": registry dump, for the exhaustive cross-check of Generated.registryByID
+//   reg dump <ent> <lo> <hi>  -> every id in [lo,hi) that GetInfoElementFromID finds: "<id>=<ie token>" joined by space, or "-"
+func init() {
+	engines["reg"] = func(a []string) string {
+		if len(a) != 4 || a[0] != "dump" {
+			return "bad-op"
+		}
+		var ent, lo, hi uint64
+		fmt.Sscan(a[1], &ent)
+		fmt.Sscan(a[2], &lo)
+		fmt.Sscan(a[3], &hi)
+		var out []string
+		for id := lo; id < hi; id++ {
+			ie, err := registryLookup(uint16(id), uint32(ent))
+			if err == nil && ie != nil {
+				out = append(out, fmt.Sprintf("%d=%s", id, ieToken(ie)))
+			}
+		}
+		if len(out) == 0 {
+			return "-"
+		}
+		return strings.Join(out, " ")
+	}
+}
